@@ -72,6 +72,18 @@ func (w *tw) probe(p *Probe) {
 			w.sb.WriteString(`<b data-m="` + id + `" v-if="` + r.expr() + `">t</b>`)
 		case "attr":
 			w.sb.WriteString(`<u data-m="` + id + `" :data-x="` + r.Path + `">a</u>`)
+		case "thtml":
+			w.sb.WriteString(`<s data-m="` + id + `"><template v-html="` + r.Path + `"></template></s>`)
+		case "vhtml":
+			w.sb.WriteString(`<s data-m="` + id + `" v-html="` + r.Path + `">x</s>`)
+		case "vtext":
+			w.sb.WriteString(`<s data-m="` + id + `" v-text="` + r.Path + `">x</s>`)
+		case "vshow":
+			w.sb.WriteString(`<b data-m="` + id + `" v-show="` + r.expr() + `">s</b>`)
+		case "class":
+			w.sb.WriteString(`<b data-m="` + id + `" :class="{hit: ` + r.expr() + `}">c</b>`)
+		case "style":
+			w.sb.WriteString(`<b data-m="` + id + `" :style="{color: ` + r.Path + `}">y</b>`)
 		}
 	}
 	w.sb.WriteString("</span>")
@@ -96,6 +108,9 @@ func (w *tw) loop(l *Loop, depth int) {
 		w.sb.WriteString(` data-m="` + l.ID + `"`)
 		if l.Bind != "" {
 			w.sb.WriteString(` :data-x="` + l.Bind + `"`)
+		}
+		if l.Fill != nil {
+			w.sb.WriteString(` ` + l.Fill.Dir + `="` + l.Fill.Path + `"`)
 		}
 	}
 	w.sb.WriteString(">")
